@@ -21,8 +21,8 @@ def variants(tier):
 
 def budget(tier):
     if tier == "thorough":
-        return dict(shards=14, examples=10, seconds=1500, shrink_seconds=60, min_nontrivial=8)
-    return dict(shards=12, examples=4, seconds=110, shrink_seconds=30, min_nontrivial=4)
+        return dict(shards=14, examples=40, seconds=1500, shrink_seconds=60, min_nontrivial=8)
+    return dict(shards=12, examples=12, seconds=150, shrink_seconds=30, min_nontrivial=4)
 
 
 def strategy(tier):
